@@ -347,8 +347,11 @@ m("C20", "flag-after-wakeup", "src/lib.rs",
         let maybe_stream = match &self.listening_addr {""", "C20.1|", "store moved after (next mutant adds it back later)")
 m("C20", "timed-wait-comparison-flipped", "src/util/task_pool.rs",
   """                            if sharing.active_tasks.load(Ordering::Acquire) <= MIN_THREADS {""", """                            if sharing.active_tasks.load(Ordering::Acquire) >= MIN_THREADS {""", "C20.4|")
-m("C20", "thread-per-connection", "src/util/task_pool.rs",
-  """        if queue.len() >= self.sharing.waiting_tasks.load(Ordering::Acquire) {""", """        if true || queue.len() >= self.sharing.waiting_tasks.load(Ordering::Acquire) {""", ["C08.1|"], "always a new thread: promise accounting no longer consulted")
+m("C20", "pool-drop-does-not-wake", "src/util/task_pool.rs",
+  """            .store(999_999_999, Ordering::Release);
+        self.sharing.condvar.notify_all();""", """            .store(999_999_999, Ordering::Release);""", "C20.4|")
+m("C20", "idle-period-doubled", "src/util/task_pool.rs",
+  """                                    .wait_timeout(todo, Duration::from_millis(5000))""", """                                    .wait_timeout(todo, Duration::from_millis(50000))""", "C20.4|")
 
 def main():
     out_index = {}
